@@ -445,6 +445,20 @@ func runDecPanic(c *core.Ctx) {
 				if !mapInitialised(fn, x) {
 					bad = append(bad, fmt.Sprintf("%s: write to a possibly nil map %s (%s)", fname(c, fn), clip(an.PathOf(x.Map), 50), P.Pos(x.Pos())))
 				}
+			case *ssa.Call:
+				// a method called on what a library function hands back as a nil interface for an ordinary
+				// argument: reflect.TypeOf(nil) is nil (a JSON null decodes to a nil `any`), errors.Unwrap of
+				// an error that wraps nothing is nil
+				if x.Call.IsInvoke() {
+					if src, ok := x.Call.Value.(*ssa.Call); ok {
+						switch n := an.CalleeName(&src.Call); n {
+						case "reflect.TypeOf", "errors.Unwrap":
+							if !knownNonNil(fn, src, x) {
+								bad = append(bad, fmt.Sprintf("%s: %s() on the result of %s, which is nil for a nil argument (%s)", fname(c, fn), x.Call.Method.Name(), n, P.Pos(x.Pos())))
+							}
+						}
+					}
+				}
 			}
 		})
 	}
@@ -1030,4 +1044,29 @@ func closedKeyLoop(P *core.Program, dec *ssa.Function, obj ssa.Value) (map[strin
 		})
 	}
 	return names, !dirty && len(names) > 0
+}
+
+// knownNonNil: at use, the result of src (reflect.TypeOf(v) / errors.Unwrap(e)) cannot be nil: it was
+// tested against nil on the way, or — for TypeOf — its argument was (`v != nil`, `case nil:` taken
+// elsewhere), or the argument is a concrete value boxed right here.
+func knownNonNil(fn *ssa.Function, src *ssa.Call, use ssa.Instruction) bool {
+	arg := src.Call.Args[0]
+	if mi, ok := arg.(*ssa.MakeInterface); ok && an.CalleeName(&src.Call) == "reflect.TypeOf" {
+		if _, isI := mi.X.Type().Underlying().(*types.Interface); !isI {
+			if _, isP := mi.X.Type().Underlying().(*types.Pointer); !isP {
+				return true
+			}
+		}
+	}
+	for _, g := range an.Guards(fn, use.Block()) {
+		g = an.NormCond(g)
+		b, ok := g.V.(*ssa.BinOp)
+		if !ok || !an.IsNilConst(b.Y) || (b.Op != token.EQL && b.Op != token.NEQ) || (b.Op == token.NEQ) != g.True {
+			continue
+		}
+		if b.X == ssa.Value(src) || (b.X == arg && an.CalleeName(&src.Call) == "reflect.TypeOf") {
+			return true
+		}
+	}
+	return false
 }
